@@ -230,9 +230,9 @@ def run(ctx):
     depth = 3 if ctx.tier == "quick" else 4
     seqs = []
     for L in range(1, depth + 1):
-        # the longest length is thinned out (every third sequence in the quick tier, every second in the thorough one: 45^4 = 4.1 M
+        # the longest length is thinned out (every third sequence in the quick tier, every fourth in the thorough one: 45^4 = 4.1 M
         # sequences would take the thorough tier past half an hour); all shorter lengths are complete
-        seqs += list(itertools.product(OPS, repeat=L)) if L < depth else [s for s in itertools.product(OPS, repeat=L)][:: (3 if ctx.tier == "quick" else 2)]
+        seqs += list(itertools.product(OPS, repeat=L)) if L < depth else [s for s in itertools.product(OPS, repeat=L)][:: (3 if ctx.tier == "quick" else 4)]
     for _ in range(300 if ctx.tier == "quick" else 5000):
         seqs.append(tuple(r.choice(OPS) for _ in range(r.randint(5, 40))))
     viol, lines, expect = [], [], []
